@@ -5,7 +5,7 @@ MC_Pos5 == {<<0, 0>>, <<5, 3>>, <<5, 31>>, <<10, 0>>, <<31, 31>>}
 MC_NowPos == <<10, 0>>
 MC_ClockFixed == <<[l0 |-> 2, pos |-> <<10, 0>>]>>
 (* time passes within an L2 interval sequence and across an L0 boundary *)
-MC_ClockMoving == <<[l0 |-> 1, pos |-> <<31, 31>>], [l0 |-> 2, pos |-> <<5, 3>>], [l0 |-> 2, pos |-> <<10, 0>>]>>
+MC_ClockMoving == <<[l0 |-> 1, pos |-> <<31, 31>>], [l0 |-> 2, pos |-> <<5, 3>>], [l0 |-> 2, pos |-> <<5, 4>>], [l0 |-> 2, pos |-> <<10, 0>>]>>
 MC_Rk1 == {"rk1"}
 MC_Rk2 == {"rk1", "rk2"}
 MC_SD2 == {"sdA", "sdB"}
